@@ -37,26 +37,122 @@ PDATA = {"r": _rot(0), "a": _rot(2), "b": _rot(5),
 
 
 def valuations(dom, quick):
-    '''Explicit list of passive valuations in the order of dom.'''
+    '''Explicit list of passive valuations in the order of dom.  Thorough:
+    every (n, m) with both coefficient rows; quick: m in 1..2 and the rows
+    alternate over the (n, m) grid (both rows when there is no integer).'''
     axes = []
     for nm in dom:
         if nm == "n":
             axes.append([("n", v) for v in N_VALUES])
         elif nm == "m":
-            axes.append([("m", v) for v in M_VALUES])
-    rows = REAL_ROWS if any(nm in ("p", "q") for nm in dom) else [REAL_ROWS[0]]
+            axes.append([("m", v) for v in (M_VALUES[:2] if quick else M_VALUES)])
+    real = any(nm in ("p", "q") for nm in dom)
     vals = []
-    for combo in itertools.product(*axes):
+    for k, combo in enumerate(itertools.product(*axes)):
         ints = dict(combo)
+        if not real:
+            rows = [REAL_ROWS[0]]
+        elif quick and axes:
+            rows = [REAL_ROWS[k % 2]]
+        else:
+            rows = REAL_ROWS
         for row in rows:
             vals.append([ints[nm] if nm in ints else row[nm] if nm in row else FIXED_REAL[nm]
                          for nm in dom])
     return vals
 
 
+# ------------------------------------- static independence of control/addresses
+INQUIRY = ("LBOUND", "UBOUND", "SIZE")
+
+
+def _names(e, acc):
+    '''Names whose VALUE expression e reads.'''
+    k = e.get("k")
+    if k == "ref":
+        acc.add(e["name"])
+    elif k == "aref":
+        acc.add(e["name"])
+        for i in e["idx"]:
+            _names(i, acc)
+    elif k == "range":
+        for x in ("lo", "hi", "st"):
+            _names(e[x], acc)
+    elif k == "un":
+        _names(e["e"], acc)
+    elif k == "bin":
+        _names(e["l"], acc)
+        _names(e["r"], acc)
+    elif k == "icall":
+        args = e["args"][1:] if e["name"] in INQUIRY else e["args"]
+        for a in args:
+            _names(a, acc)
+        for a in e.get("named", {}).values():
+            _names(a, acc)
+    elif k in ("lit", "none"):
+        pass
+    else:
+        raise KeyError(k)
+
+
+def _addr(e, acc):
+    '''Names read by the subscripts occurring in e.'''
+    k = e.get("k")
+    if k == "aref":
+        for i in e["idx"]:
+            _names(i, acc)
+    elif k == "un":
+        _addr(e["e"], acc)
+    elif k == "bin":
+        _addr(e["l"], acc)
+        _addr(e["r"], acc)
+    elif k == "icall":
+        for a in e["args"]:
+            _addr(a, acc)
+        for a in e.get("named", {}).values():
+            _addr(a, acc)
+    elif k in ("ref", "lit", "none"):
+        pass
+    else:
+        raise KeyError(k)
+
+
+def control_names(stmts, acc=None):
+    '''Names on which the control flow or the addressing of a program
+    depends (loop bounds, conditions, subscripts); None if a statement kind
+    is not analysed.'''
+    acc = set() if acc is None else acc
+    try:
+        for s in stmts:
+            if s["k"] == "assign":
+                _addr(s["lhs"], acc)
+                _addr(s["rhs"], acc)
+            elif s["k"] == "loop":
+                for x in ("lo", "hi", "st"):
+                    _names(s[x], acc)
+                if control_names(s["body"], acc) is None:
+                    return None
+            elif s["k"] == "if":
+                _names(s["cond"], acc)
+                if control_names(s["then"], acc) is None or \
+                        control_names(s["else"], acc) is None:
+                    return None
+            elif s["k"] == "block":
+                if control_names(s["body"], acc) is None:
+                    return None
+            else:
+                return None
+    except KeyError:
+        return None
+    return acc
+
+
 # ------------------------------------------------------------------ building
 REFUSALS = ("TangentLinearError", "VisitorError", "NotImplementedError",
             "TransformationError")
+
+
+TEXT_HOOK = None       # set by pv.c19_demo: corrupts the recorded adjoint text
 
 
 def _adjoint(src, active):
@@ -78,6 +174,18 @@ def _adjoint(src, active):
             return "refused", str(err)[:200], None
         return "crash", f"{type(err).__name__}: {err}"[:300], None
     return "accepted", ad, f"harness-error {first[0]}: {first[1]}"[:300]
+
+
+def _preprocessed(src, active):
+    '''pv-ast body of the tangent-linear routine after PSyAD's own
+    preprocess_trans (what AssignmentTrans sees) - used by the matchers only.'''
+    from psyclone.psyad.transformations.preprocess import preprocess_trans
+    try:
+        psy = sem.parse(src)
+        preprocess_trans(psy, list(active))
+        return sem.Exporter().routine(sem.routine_named(psy, "k"))["body"]
+    except Exception:   # noqa
+        return None
 
 
 def subsets(names, tier):
@@ -103,6 +211,8 @@ def _build(item):
         if status != "accepted":
             out.append({"id": cid, "status": status, "why": text})
             continue
+        if TEXT_HOOK:
+            text = TEXT_HOOK(text)      # corruption test (pv.c19_demo) only
         try:
             apsy = sem.parse(text)
             ad = sem.Exporter().routine(sem.routine_named(apsy, "adj_k"))
@@ -128,10 +238,14 @@ def _build(item):
             out.append({"id": cid, "status": "unsupported", "why": "no active dummy argument",
                         "after": text})
             continue
+        cn_tl, cn_ad = control_names(tl["body"]), control_names(ad["body"])
+        full = cn_tl is None or cn_ad is None or bool((cn_tl | cn_ad) & set(active))
         case = {"id": cid, "decls": decls, "dom": dom, "vals": valuations(dom, tier == "quick"),
-                "act": act, "pas": pas, "pdata": pdata, "tl": tl["body"], "ad": ad["body"]}
+                "act": act, "pas": pas, "pdata": pdata, "full": full,
+                "tl": tl["body"], "ad": ad["body"]}
         out.append({"id": cid, "status": "accepted", "case": case, "src": src, "after": text,
-                    "active": list(active), "harness": harness})
+                    "active": list(active), "harness": harness,
+                    "tlpre": _preprocessed(src, active)})
     return out
 
 
@@ -263,14 +377,14 @@ def _trip(lo, hi, st):
 
 def _offset_loops(case):
     '''Pairs (tl loop, adjoint loop) for the adjoint loops whose start is
-    written `stop - MOD(<text>, step)`; pairing by loop variable and order.'''
+    written `stop - MOD(<text>, step)`: the tl loop it reverses has the same
+    variable, tl.start == ad.stop and tl.stop == ad.start.l.'''
     res = []
     tls = list(_loops(case["tl"]))
     for lp in _loops(case["ad"]):
         st = lp["lo"]
         if st.get("k") == "bin" and st["op"] == "-" and st["r"].get("k") == "icall" \
-                and st["r"]["name"] == "MOD":
-            # the tl loop it reverses: same variable, tl.start == ad.stop, tl.stop == ad.start.l
+                and st["r"]["name"] == "MOD" and len(st["r"]["args"]) == 2:
             for t in tls:
                 if t["var"] == lp["var"] and t["lo"] == lp["hi"] and t["hi"] == st["l"]:
                     res.append((t, lp))
@@ -278,44 +392,147 @@ def _offset_loops(case):
     return res
 
 
-def m_offset_compound_start(rec, clause, detail, finding):
-    '''The tangent-linear code has a loop with a step other than +-1 whose
-    START expression is a sum or difference (lo+m, n-1, ...); loop_node() builds
-    the offset as text "mod(<stop>-<start>,<step>)" without parentheses, so the
-    adjoint loop starts at stop - MOD(stop - lo + m, step).  Matches only if on
-    EVERY failing valuation that written offset differs from
-    MOD(stop - (start), step) for one such loop, and no loop bound depends on
-    another loop's variable.'''
-    if clause not in ("Transpose", "NoNewUndefined"):
-        return False
-    case = rec["case"]
-    pairs = []
+def _entries(stmts, env, target, out, budget):
+    '''Environments (integer variables) with which the loop `target` of a
+    program is entered: simulates the loops around it (both branches of IFs).'''
+    for s in stmts:
+        if budget[0] <= 0:
+            return
+        if s["k"] == "loop":
+            if s is target:
+                out.append(dict(env))
+                continue
+            if not any(l is target for l in _loops(s["body"])):
+                continue
+            lo, hi, st = (_ival(s[x], env) for x in ("lo", "hi", "st"))
+            if None in (lo, hi, st) or st == 0:
+                out.append(None)
+                return
+            for k in range(_trip(lo, hi, st)):
+                budget[0] -= 1
+                e2 = dict(env)
+                e2[s["var"]] = lo + k * st
+                _entries(s["body"], e2, target, out, budget)
+        elif s["k"] == "if":
+            _entries(s["then"], env, target, out, budget)
+            _entries(s["else"], env, target, out, budget)
+        elif s["k"] == "block":
+            _entries(s["body"], env, target, out, budget)
+
+
+def _pair_facts(case, vid):
+    '''For the failing valuation vid: facts about every dynamic entry of a
+    tl loop with a step other than +-1 that PSyAD reversed with an offset:
+    (tl loop, step, written offset argument value, meant value, tl trip count,
+    adjoint trip count).  None if something cannot be evaluated.'''
+    env0 = _env(case, vid)
+    facts = []
     for t, lp in _offset_loops(case):
-        if _unit_step(t["st"]) or not _additive(t["lo"]):
+        if _unit_step(t["st"]):
             continue
         written = lp["lo"]["r"]["args"][0]
         meant = {"k": "bin", "op": "-", "l": t["hi"], "r": t["lo"]}
-        if written == meant:
-            continue
-        pairs.append((t, written, meant))
-    if not pairs:
-        return False
-    for vid in detail["vids"]:
-        env = _env(case, vid)
-        explained = False
-        for t, written, meant in pairs:
-            st = _ival(t["st"], env)
+        envs = []
+        _entries(case["tl"], env0, t, envs, [2000])
+        for env in envs:
+            if env is None:
+                return None
+            lo, hi, st = (_ival(t[x], env) for x in ("lo", "hi", "st"))
             w, m = _ival(written, env), _ival(meant, env)
-            if None in (st, w, m) or st == 0:
-                return False
-            if _fmod(w, st) != _fmod(m, st):
-                explained = True
-        if not explained:
-            return False
-    return True
+            if None in (lo, hi, st, w, m) or st == 0:
+                return None
+            ad_start = hi - _fmod(w, st)
+            facts.append({"loop": t, "textual": written != meant, "st": st,
+                          "w": _fmod(w, st), "m": _fmod(m, st),
+                          "tl_trip": _trip(lo, hi, st), "ad_trip": _trip(ad_start, lo, -st)})
+    return facts
 
 
-MATCHERS = {"loop-offset-compound-start": m_offset_compound_start}
+def m_offset_compound_start(rec, clause, vd, finding):
+    '''The tangent-linear code has a loop with a step other than +-1 whose
+    START expression is a sum or difference (1+m, n-1, ...); loop_node() builds
+    the offset as text "mod(<stop>-<start>,<step>)" without parentheses, so the
+    adjoint loop starts at stop - MOD(stop - 1 + m, step).  Explains a failing
+    valuation only if on that valuation the written offset differs from
+    MOD(stop - (start), step) at some entry of such a loop.'''
+    if clause not in ("Transpose", "NoNewUndefined"):
+        return False
+    facts = _pair_facts(rec["case"], vd["vid"])
+    if not facts:
+        return False
+    return any(f["textual"] and _additive(f["loop"]["lo"]) and f["w"] != f["m"] for f in facts)
+
+
+def m_zero_trip_nonunit_step(rec, clause, vd, finding):
+    '''A tangent-linear loop with a step s, |s| > 1, has zero trips on the
+    failing valuation with 0 < |start - stop| < |s| beyond the end; the
+    reversed loop `do i = stop - MOD(stop - start, s), start, -s` then starts
+    exactly at `start` and executes one iteration.  Explains a failing valuation
+    only if at some entry of such a loop the tl trip count is 0 and the trip
+    count of the reversed loop as written is positive.'''
+    if clause not in ("Transpose", "NoNewUndefined"):
+        return False
+    facts = _pair_facts(rec["case"], vd["vid"])
+    if not facts:
+        return False
+    return any(f["tl_trip"] == 0 and f["ad_trip"] > 0 for f in facts)
+
+
+def _assignments(stmts):
+    for s in stmts:
+        if s["k"] == "assign":
+            yield s
+        elif s["k"] in ("loop", "block"):
+            yield from _assignments(s["body"])
+        elif s["k"] == "if":
+            yield from _assignments(s["then"])
+            yield from _assignments(s["else"])
+
+
+def _terms(e, sign=1):
+    '''(sign, term) of an expression split at binary + and - exactly as
+    AssignmentTrans does (a unary minus stays inside its term).'''
+    if e.get("k") == "bin" and e["op"] in ("+", "-"):
+        yield from _terms(e["l"], sign)
+        yield from _terms(e["r"], -sign if e["op"] == "-" else sign)
+    else:
+        yield sign, e
+
+
+def _contains(e, target):
+    if e == target:
+        return True
+    if isinstance(e, dict):
+        return any(_contains(v, target) for v in e.values())
+    if isinstance(e, list):
+        return any(_contains(v, target) for v in e)
+    return False
+
+
+def m_increment_first_term_subtracted(rec, clause, vd, finding):
+    '''The (preprocessed) tangent-linear code has an assignment to an active
+    variable  X = ... - c*X ...  in which the FIRST term that contains the
+    left-hand side itself is subtracted (binary minus).  AssignmentTrans.apply
+    drops the operator of the first deferred increment term
+    (`rhs, _ = deferred_inc.pop(0)`), so the adjoint has X = c*X (or nothing
+    for c = 1) instead of X = -c*X.  Explains a failing valuation only if a
+    wrong matrix entry lies in the row or column of such an X.'''
+    if clause != "Transpose" or not rec.get("tlpre"):
+        return False
+    hits = set()
+    for asg in _assignments(rec["tlpre"]):
+        lhs = asg["lhs"]
+        if lhs.get("name") not in rec["active"]:
+            continue
+        incs = [sg for sg, t in _terms(asg["rhs"]) if _contains(t, lhs)]
+        if incs and incs[0] < 0:
+            hits.add(lhs["name"])
+    return bool(hits & set(vd["w"].get("names", [])))
+
+
+MATCHERS = {"increment-first-term-subtracted": m_increment_first_term_subtracted,
+            "loop-offset-compound-start": m_offset_compound_start,
+            "zero-trip-nonunit-step": m_zero_trip_nonunit_step}
 
 
 # ------------------------------------------------------------------------ run
@@ -342,28 +559,31 @@ def judge(out, results, res):
             continue
         failing.append(cid)
         slim = {"id": cid, "active": r["active"], "source": r["src"], "after": r["after"]}
-        rec = {"id": cid, "case": r["case"], "active": r["active"]}
-        for cl in sorted({f[0] for f in fails}):
-            these = [f for f in fails if f[0] == cl]
-            detail = {"vids": [f[1] for f in these],
-                      "n_failing_valuations": len(these),
-                      "n_valuations": nval,
-                      "dom": r["case"]["dom"],
-                      "witnesses": [{"valuation": r["case"]["vals"][f[1] - 1], "w": f[2]}
-                                    for f in these[:3]]}
+        rec = {"id": cid, "case": r["case"], "active": r["active"], "tlpre": r.get("tlpre")}
+        # every failing valuation is matched on its own: the first listed
+        # finding that explains it, else it is a violation
+        groups = {}
+        for cl, vid, w in fails:
+            vd = {"vid": vid, "w": w, "valuation": r["case"]["vals"][vid - 1]}
             hit = None
             for f in out.findings:
                 m = MATCHERS.get(f["match"])
-                if m and m(rec, cl, detail, f):
-                    hit = f["id"]
-                    break
-            sdetail = dict(detail)
-            sdetail["vids"] = sdetail["vids"][:20]
+                try:
+                    if m and m(rec, cl, vd, f):
+                        hit = f["id"]
+                        break
+                except Exception:   # noqa - a matcher that cannot decide does not match
+                    pass
+            groups.setdefault((hit, cl), []).append(vd)
+        for (hit, cl), vds in sorted(groups.items(), key=lambda kv: (str(kv[0][0]), kv[0][1])):
+            detail = {"n_failing_valuations": len(vds), "n_valuations": nval,
+                      "dom": r["case"]["dom"], "vids": [v["vid"] for v in vds][:20],
+                      "witnesses": [{"valuation": v["valuation"], "w": v["w"]} for v in vds[:3]]}
             if hit:
                 out.known_hit[hit] = out.known_hit.get(hit, 0) + 1
-                out.known_examples.setdefault(hit, {"case": slim, "clause": cl, "detail": sdetail})
+                out.known_examples.setdefault(hit, {"case": slim, "clause": cl, "detail": detail})
             else:
-                out.violations.append({"case": slim, "clause": cl, "detail": sdetail})
+                out.violations.append({"case": slim, "clause": cl, "detail": detail})
     return accepted, nontrivial, skipstat, failing
 
 
